@@ -647,6 +647,16 @@ fn classify(c: &Case, res: &Res) -> Option<&'static str> {
     None
 }
 
+/// the replay descriptor must rebuild exactly this case
+fn descriptor_roundtrip(c: &Case) {
+    if matches!(&c.plain, Plain::Hex(b) if b.len() > 512) {
+        return;
+    }
+    if Case::from_json(&c.to_json()) != *c {
+        machinery(&format!("case descriptor does not survive to_json/from_json: {}", c.to_json()));
+    }
+}
+
 struct Ctx<'a> {
     run: &'a Run,
     failed: AtomicU64,
@@ -656,6 +666,7 @@ impl Ctx<'_> {
     /// run a case through the generic path; report it when it fails. Returns true when it held.
     fn check(&self, c: &Case) -> bool {
         self.run.eval(1);
+        descriptor_roundtrip(c);
         let (res, nt) = check_case(c);
         if nt {
             self.run.nontrivial(1);
@@ -1757,8 +1768,9 @@ fn len_crossing(data: &[u8], enc: &Enc, target: usize) -> Option<usize> {
     let c = |n: usize| flate_encode(enc, &data[..n]).len();
     // estimate the ratio on a sample to start from a narrow bracket
     let sample = data.len().min(target.max(4096));
-    let est = (target as f64 * sample as f64 / c(sample) as f64) as usize;
-    let (mut lo, mut hi) = ((est * 4 / 5).min(data.len()), (est * 5 / 4 + 64).min(data.len()));
+    let est = ((target as f64 * sample as f64 / c(sample) as f64) as usize).min(data.len());
+    let est = ((target as f64 * est as f64 / c(est).max(1) as f64) as usize).min(data.len());
+    let (mut lo, mut hi) = ((est - est / 50).min(data.len()), (est + est / 50 + 64).min(data.len()));
     if c(lo) > target {
         lo = 0;
     }
@@ -1785,15 +1797,16 @@ fn part8_flate_sizes(cx: &Ctx) {
     // (a) expansion ratio: constant runs and short periods of 2^20 .. 2^23 bytes and beyond; deflate
     // reaches 1032:1 in the limit (258 bytes per 2 bits), flate2's best level gets past 1024:1 at ~4 MiB
     let m = 1usize << 20;
-    let mut big_sizes = vec![m - 1, m, m + 1, 2 * m, 2 * m + 1, 3 * m, 4 * m - 1, 4 * m, 4 * m + 1, 5 * m + 7, 8 * m, 8 * m + 1];
+    // (beyond 8 MiB: runs of zero bytes only - output lengths past 2^24, 2^25, 2^26; 2^27 and 2^28 in the thorough tier)
+    let mut big_sizes = vec![m - 1, m, m + 1, 2 * m, 2 * m + 1, 3 * m, 4 * m - 1, 4 * m, 4 * m + 1, 5 * m + 7, 8 * m, 8 * m + 1, 16 * m + 1, 32 * m + 1, 64 * m + 1];
     if run.thorough {
-        big_sizes.extend([16 * m + 1, 32 * m, 64 * m + 1, 256 * m + 1]);
+        big_sizes.extend([128 * m + 1, 256 * m + 1]);
     }
     for (k, n) in big_sizes.iter().enumerate() {
         for lvl in [9u32, 6, 1] {
             cases.push(flate_case("flate ratio", Plain::Run { byte: 0, len: *n }, Enc::Level(lvl)));
         }
-        if *n > 64 * m {
+        if *n > 8 * m + 1 {
             continue;
         }
         let others = [
@@ -1863,6 +1876,9 @@ fn part8_flate_sizes(cx: &Ctx) {
             if lvl == 0 {
                 continue;
             }
+            if lvl == 9 && t > 65536 {
+                continue;
+            }
             combos.push((Plain::Lcg { seed: 15, len: 0, mask: 0x0f }, Enc::Level(lvl), t));
             if t <= 65536 {
                 combos.push((Plain::Lcg { seed: 16, len: 0, mask: 0x03 }, Enc::Level(lvl), t));
@@ -1870,6 +1886,7 @@ fn part8_flate_sizes(cx: &Ctx) {
         }
     }
     let found = std::sync::Mutex::new(Vec::<(usize, usize, usize)>::new());
+    let t_bisect = run.elapsed();
     util::par_for(combos.len(), |i| {
         let (g, enc, t) = &combos[combos.len() - 1 - i];
         let data = g.with_len(t * 6 + 4096).bytes();
@@ -1887,6 +1904,7 @@ fn part8_flate_sizes(cx: &Ctx) {
     });
     let mut found = found.into_inner().unwrap();
     found.sort();
+    run.set("flate_boundary_bisection_wall_s", json!(((run.elapsed() - t_bisect) * 100.0).round() / 100.0));
     let mut exact = 0u64;
     let mut boundary_log = vec![];
     for (ci, n, before) in &found {
@@ -1914,6 +1932,7 @@ fn part8_flate_sizes(cx: &Ctx) {
     util::par_for(order.len(), |k| {
         let c = &cases[order[k]];
         run.eval(1);
+        descriptor_roundtrip(c);
         let plain = c.plain.bytes();
         let content = c.encode(&plain);
         if content != plain {
@@ -2014,7 +2033,7 @@ impl Stale {
     }
 }
 
-#[derive(Clone, Debug)]
+#[derive(Clone, Debug, PartialEq)]
 struct CompCase {
     part: String,
     plain: Plain,
@@ -2355,6 +2374,9 @@ fn part9_compress(cx: &Ctx) {
     util::par_for(order.len(), |k| {
         let c = &cases[order[k]];
         run.eval(1);
+        if CompCase::from_json(&c.to_json()) != *c {
+            machinery(&format!("case descriptor does not survive to_json/from_json: {}", c.to_json()));
+        }
         let out = comp_run(c);
         if out.applied {
             applied.fetch_add(1, Ordering::Relaxed);
